@@ -29,7 +29,7 @@ import (
 const home = "HOME.GOKRB5"
 
 type conf struct {
-	kind     string // pw | kt
+	kind     string // pw | kt | pwsa (password client whose KDC entry has a non-default salt and that assumes pre-authentication)
 	etlist   int    // index into etLists
 	policy   string
 	fwd      bool
@@ -81,6 +81,12 @@ func newWorld(id int) (*world, error) {
 		w.k.AddService(home, svcName(i), 18, 17, 23)
 	}
 	if _, err := w.k.AddPasswordClient(home, kmsg.N(1, "pwuser"), w.pw, nil, 0, kcrypto.Etypes...); err != nil {
+		return nil, err
+	}
+	// the same password behind a non-default salt (a renamed account): a client that pre-authenticates before being asked
+	// guesses the default salt, is refused with the hints, and must then use them
+	customSalt := "HOME.GOKRB5formername"
+	if _, err := w.k.AddPasswordClient(home, kmsg.N(1, "pwsalted"), w.pw, &customSalt, 0, kcrypto.Etypes...); err != nil {
 		return nil, err
 	}
 	p := w.k.AddService(home, kmsg.N(1, "ktuser"), kcrypto.Etypes...)
@@ -171,7 +177,7 @@ func TestProp(t *testing.T) {
 	var confs []conf
 	crnd := vh.NewRand("c10confs")
 	for i := 0; i < nconf; i++ {
-		c := conf{kind: vh.Pick(crnd, "pw", "kt"), etlist: crnd.Intn(len(etLists)), policy: vh.Pick(crnd, "none", "info2", "info+pwsalt"),
+		c := conf{kind: vh.Pick(crnd, "pw", "kt", "pwsa"), etlist: crnd.Intn(len(etLists)), policy: vh.Pick(crnd, "none", "info2", "info+pwsalt"),
 			fwd: crnd.Bool(), prox: crnd.Bool(), canon: crnd.Bool(), noaddr: crnd.Bool(),
 			renew: vh.Pick(crnd, time.Duration(0), 7*24*time.Hour), life: vh.Pick(crnd, 10*time.Minute, 24*time.Hour), topology: topologies[i%len(topologies)]}
 		confs = append(confs, c)
@@ -251,10 +257,16 @@ func runHistory(t *testing.T, r *vh.Run, w *world, ck string, c conf, nops int) 
 	if c.kind == "kt" {
 		cname = "ktuser"
 	}
+	if c.kind == "pwsa" {
+		cname = "pwsalted"
+	}
 	w.k.Realms[home].Principals[cname].PreAuth = c.policy
 	mkClient := func() *client.Client {
 		if c.kind == "pw" {
 			return client.NewWithPassword(cname, home, w.pw, cfg, client.DisablePAFXFAST(true))
+		}
+		if c.kind == "pwsa" {
+			return client.NewWithPassword(cname, home, w.pw, cfg, client.DisablePAFXFAST(true), client.AssumePreAuthentication(true))
 		}
 		return client.NewWithKeytab(cname, home, w.kt, cfg, client.DisablePAFXFAST(true))
 	}
@@ -668,7 +680,10 @@ func checkRequest(r *vh.Run, viol func(fp, what string, extra map[string]any), c
 		}
 		for _, pa := range q.PAData {
 			if pa.Type == 2 {
-				if rq.PreauthErr != "" {
+				if rq.PreauthErr != "" && c.kind == "pwsa" && (strings.Contains(rq.PreauthErr, "does not decrypt") || strings.Contains(rq.PreauthErr, "no key")) {
+					// a guess made before the KDC said which salt and etype to use: refused, the login must go on with the hints
+					r.Inc("observe_preemptive_preauth_guess_refused")
+				} else if rq.PreauthErr != "" {
 					bad("pa-enc-timestamp", rq.PreauthErr)
 				} else if rq.PreauthTS != nil {
 					if !from.IsZero() && (rq.PreauthTS.Before(from.Truncate(time.Microsecond)) || rq.PreauthTS.After(to.Add(time.Microsecond))) {
